@@ -7,7 +7,7 @@ import "fmt"
 
 var allPopKinds = []string{"tampered", "unsigned", "foreign", "other-step-key", "earlier-step-key", "earlier-step-key", "forged-keyid", "extra-sigs", "dup-infix", "keyid-variant", "keyid-variant", "wrong-name-len", "garbage", "bad-sig-encoding", "corrupt-sig", "cert", "cert"}
 
-var alterKinds = []string{"mutate-field", "mutate-field", "mutate-field", "drop-sig", "reorder-sigs", "dup-sig", "corrupt-sig", "swap-keyids", "foreign-verifier", "empty-keyset", "wrong-key", "verifier-subset", "signed-by-others-only"}
+var alterKinds = []string{"mutate-field", "mutate-field", "mutate-field", "drop-sig", "reorder-sigs", "dup-sig", "corrupt-sig", "swap-keyids", "foreign-verifier", "empty-keyset", "wrong-key", "verifier-subset", "signed-by-others-only", "verifier-keytype", "verifier-scheme"}
 
 func baseCfg(rng *Rng, prop string) *ChainCfg {
 	cfg := &ChainCfg{Prop: prop, LayoutDSSE: rng.Chance(40), LinkDSSE: rng.Chance(30), NSteps: 1 + rng.Intn(3), Thresholds: []int{1, 1, 1, 2},
@@ -57,7 +57,7 @@ func init() {
 				cfg.Depth = 1
 			}
 			return cfg
-		}, "generated 1-3 step chains, 1-2 layout signer keys from an RSA/ECDSA/Ed25519 pool, both wrappers, both entry points, every layout carries an inspection that appends to a marker file; 4 of 5 cases apply one alteration after signing (a string anywhere in the signed layout, drop/reorder/duplicate/corrupt a signature, swap key ids, add a foreign verifier key, empty key set, wrong key, verifier subset, same key id but other key), in 60% of them after the authentic layout was verified in the same process; compared: verdict, summary, inspection commands that actually ran. Class = (wrapper, entry, alteration, verdict).")
+		}, "generated 1-3 step chains, 1-2 layout signer keys from an RSA/ECDSA/Ed25519 pool, both wrappers, both entry points, every layout carries an inspection that appends to a marker file; 4 of 5 cases apply one alteration after signing (a string anywhere in the signed layout, drop/reorder/duplicate/corrupt a signature, swap key ids, add a foreign verifier key, empty key set, wrong key, verifier subset, same key id but other key, a verifier key with an unknown key type or an unfitting scheme), in 60% of them after the authentic layout was verified in the same process; compared: verdict, summary, inspection commands that actually ran. Class = (wrapper, entry, alteration, verdict).")
 	}
 	props["C02"] = func(r *Runner, tier string, rng *Rng) {
 		runChains(r, rng, tierN(tier, 300, 8000), func(i int) *ChainCfg {
@@ -81,6 +81,7 @@ func init() {
 			cfg := baseCfg(rng, "C05")
 			cfg.Thresholds = []int{1, 2, 2, 3}
 			cfg.Differ = rng.Chance(60)
+			cfg.SurplusPct = 30 // more counted links than the threshold: ALL of them have to agree
 			cfg.EmptyLastPct = 20
 			if rng.Chance(40) {
 				cfg.Inspections = []string{"noop"}
@@ -90,7 +91,7 @@ func init() {
 			cfg.PopKinds = []string{"foreign", "unsigned", "tampered", "forged-keyid"}
 			cfg.ExtraPerStep = rng.Intn(2)
 			return cfg
-		}, "1-3 steps with thresholds 1-3; counted links agree or one of them differs in one product path / digest / presence / hash algorithm set; the last step of a multi-step layout reports no products in a fifth of the cases; 40% carry an inspection, often named like the first or last step; uncounted links (foreign, unsigned, tampered, forged id) carry other artifacts; rules strict (MATCH + DISALLOW *), lenient or random; compared: verdict and the summary's name, materials and products. Class = (differ?, kinds, verdict).")
+		}, "1-3 steps with thresholds 1-3, in 30% one counted link more than the threshold; counted links agree or one of them differs in one product path / digest / presence / hash algorithm set; the last step of a multi-step layout reports no products in a fifth of the cases; 40% carry an inspection, often named like the first or last step; uncounted links (foreign, unsigned, tampered, forged id) carry other artifacts; rules strict (MATCH + DISALLOW *), lenient or random; compared: verdict and the summary's name, materials and products. Class = (differ?, kinds, verdict).")
 	}
 	props["C08"] = func(r *Runner, tier string, rng *Rng) {
 		runChains(r, rng, tierN(tier, 220, 5000), func(i int) *ChainCfg {
@@ -121,7 +122,7 @@ func init() {
 			for k := 0; k < ni; k++ {
 				cfg.Inspections = append(cfg.Inspections, kinds[rng.Intn(len(kinds))])
 			}
-			cfg.DirEdit = rng.Pick([]string{"", "", "add", "remove", "modify"})
+			cfg.DirEdit = rng.Pick([]string{"", "", "add", "remove", "modify", "add-hidden", "add-hidden"})
 			cfg.AltAlgPct = 25
 			cfg.RequirePct = 30
 			cfg.StepRuleBreakPct = 12
@@ -135,7 +136,7 @@ func init() {
 				cfg.Thresholds = []int{1, 2}
 			}
 			return cfg
-		}, "0-3 inspections from a catalogue of real shell commands (no-op, create/modify/delete a file, exit 1..255, effect then exit, killed by signal, missing executable, empty argv), final product directory equal to the last step's products or with one file added / removed / modified, the last step's products recorded under sha512 only in 25% of the cases (nothing comparable = nothing equal), with and without an explicit run directory (incl. missing / empty); inspection rules match the directory against the last step's products, 30% carry a REQUIRE (first, or after ALLOW *); 12% of the chains have a step whose product rules fail (no inspection may run then), 10% an inspection named like a step; compared: verdict, summary, the list of commands that actually ran (marker file), the files present afterwards. Class = (inspection kinds, directory edit, run-dir state, verdict).")
+		}, "0-3 inspections from a catalogue of real shell commands (no-op, create/modify/delete a file, exit 1..255, effect then exit, killed by signal, missing executable, empty argv), final product directory equal to the last step's products or with one file added (also below a .git directory, a dot file, a backup file) / removed / modified, the last step's products recorded under sha512 only in 25% of the cases (nothing comparable = nothing equal), with and without an explicit run directory (incl. missing / empty); inspection rules match the directory against the last step's products, 30% carry a REQUIRE (first, or after ALLOW *); 12% of the chains have a step whose product rules fail (no inspection may run then), 10% an inspection named like a step; compared: verdict, summary, the list of commands that actually ran (marker file), the files present afterwards. Class = (inspection kinds, directory edit, run-dir state, verdict).")
 	}
 }
 
